@@ -717,7 +717,7 @@ func runC04Custom(t *fw.T) {
 				role = "prefix"
 			}
 		}
-		regs = append(regs, opReg{ch, role, lvl})
+		regs = append(regs, opReg{ch: ch, role: role, level: lvl})
 	}
 	var stmts []string
 	var trees []*cnode
